@@ -11,6 +11,7 @@ import (
 	"io"
 	"os"
 	"os/exec"
+	"strings"
 	"sync"
 	"time"
 )
@@ -33,13 +34,20 @@ type worker struct {
 }
 
 type tailBuf struct {
-	mu  sync.Mutex
-	buf []byte
+	mu   sync.Mutex
+	buf  []byte
+	mark string
 }
 
 func (t *tailBuf) Write(p []byte) (int, error) {
 	t.mu.Lock()
 	defer t.mu.Unlock()
+	// handlers announce what they are about to run on lines starting with "TEXT " or "CALL ": keep the last one
+	for _, line := range bytes.Split(p, []byte("\n")) {
+		if bytes.HasPrefix(line, []byte("TEXT ")) || bytes.HasPrefix(line, []byte("CALL ")) {
+			t.mark = string(line)
+		}
+	}
 	t.buf = append(t.buf, p...)
 	if len(t.buf) > 4000 {
 		// keep head and tail: the head names a fatal error, the tail its goroutine
@@ -51,7 +59,20 @@ func (t *tailBuf) Write(p []byte) (int, error) {
 func (t *tailBuf) String() string {
 	t.mu.Lock()
 	defer t.mu.Unlock()
-	return string(t.buf)
+	s := string(t.buf)
+	if t.mark != "" {
+		// only the fatal message itself is of interest besides the mark
+		if i := strings.Index(s, "fatal error"); i >= 0 {
+			s = s[i:]
+		} else if i := strings.Index(s, "panic:"); i >= 0 {
+			s = s[i:]
+		}
+		if len(s) > 400 {
+			s = s[:400]
+		}
+		return "last announced: " + t.mark + " | " + s
+	}
+	return s
 }
 
 func start(o Options) (*worker, error) {
@@ -151,6 +172,11 @@ func Run(o Options, cases [][]byte) ([][]byte, error) {
 							continue
 						}
 						results[i] = bytes.TrimRight(res, "\n")
+						if bytes.Contains(res, []byte(`"fatal":true`)) {
+							// the handler says the worker is no longer usable (a goroutine of the code under test is stuck)
+							w.kill()
+							w = nil
+						}
 					case <-time.After(o.Timeout):
 						results[i] = failure("hang", w)
 						w.kill()
